@@ -51,6 +51,8 @@ enum Surplus {
     SwapDefaultValue, // default's value `b` is a group here
     /// a key that merely ends in `_other`
     LoneOther,
+    /// a surplus plural with a form the locale's rules never select: two diagnostics for one key
+    PluralUnusedForm,
 }
 
 #[derive(Clone, Copy, Debug)]
@@ -73,7 +75,7 @@ fn all_patterns(full: bool) -> Vec<Pattern> {
         }
     }
     let pls = [Pl::Forms, Pl::Null, Pl::Absent, Pl::Partial, Pl::AsValue, Pl::OtherOnly];
-    let ss = [Surplus::None, Surplus::Value, Surplus::Group, Surplus::Plural, Surplus::InsideGroup, Surplus::SwapDefaultValue, Surplus::LoneOther];
+    let ss = [Surplus::None, Surplus::Value, Surplus::Group, Surplus::Plural, Surplus::InsideGroup, Surplus::SwapDefaultValue, Surplus::LoneOther, Surplus::PluralUnusedForm];
     let mut out = vec![];
     for a in PS {
         for g in &gs {
@@ -161,6 +163,11 @@ fn entries_for(loc: &str, pat: &Pattern) -> Vec<(String, Val)> {
             e.push(("sp_other".into(), t("sp.other")));
         }
         Surplus::LoneOther => e.push(("sort_other".into(), t("sort_other-surplus"))),
+        Surplus::PluralUnusedForm => {
+            e.push(("su_one".into(), t("su.one")));
+            e.push(("su_two".into(), t("su.two")));
+            e.push(("su_other".into(), t("su.other")));
+        }
         _ => {}
     }
     e
@@ -271,7 +278,7 @@ pub fn run(tier: Tier) -> i32 {
         rep.sample(json!({"project": s}));
     }
     let mut cov = serde_json::Map::new();
-    cov.insert("rule".into(), json!("default locale en holds {a, b, g.x, g.y, g.h.z, p_one/p_other}; per non-default locale every combination of: a in {value,null,absent}; g in {absent, null, value (swap), group with x,y in {value,null,absent} and h in {absent,null,value (swap), group with z in 3 states}}; p in {forms, null, absent, only p_one, plain value, only p_other}; surplus in {none, value, group, plural pair, inside g, default's value b as a group, a key ending in _other}; the default locale also holds a plain key `kind_other`; x inherits {none, explicit to default} x declared order of the locales (every permutation, rotating with the job index: the default first / in the middle / last) x {no namespaces, two namespaces with different patterns}; thorough adds a third locale (reduced pattern set) with every inherits map; oracle: exact multiset of MissingKey/SurplusKey/UnusedForm diagnostics, accessible key set == default's keys in every locale, SubKeyMissmatch for swaps, and every key rendered in every locale"));
+    cov.insert("rule".into(), json!("default locale en holds {a, b, g.x, g.y, g.h.z, p_one/p_other}; per non-default locale every combination of: a in {value,null,absent}; g in {absent, null, value (swap), group with x,y in {value,null,absent} and h in {absent,null,value (swap), group with z in 3 states}}; p in {forms, null, absent, only p_one, plain value, only p_other}; surplus in {none, value, group, plural pair, inside g, default's value b as a group, a key ending in _other, a plural with a form its locale never selects}; the default locale also holds a plain key `kind_other`; x inherits {none, explicit to default} x declared order of the locales (every permutation, rotating with the job index: the default first / in the middle / last) x {no namespaces, two namespaces with different patterns}; thorough adds a third locale (reduced pattern set) with every inherits map; oracle: exact multiset of MissingKey/SurplusKey/UnusedForm diagnostics, accessible key set == default's keys in every locale, SubKeyMissmatch for swaps, and every key rendered in every locale"));
     cov.insert("exhaustive".into(), json!(true));
     cov.insert("outcome_classes".into(), json!(*classes.lock().unwrap()));
     cov.insert("suppress_key_warnings_build".into(), json!(cfg!(feature = "suppress")));
